@@ -123,19 +123,20 @@ func verifyEnforcedCanonicalJSON(input []byte) error {
 			value.ForEach(iter)
 			return true
 		}
+		if value.Type != gjson.Number {
+			return true
+		}
 		if value.Num < -9007199254740991 || value.Num > 9007199254740991 {
 			valid = false
 			return false
 		}
-		if value.Num != 0 && strings.ContainsRune(value.Raw, '.') {
+		// Only integer literals are allowed: no fraction and no exponent,
+		// whatever the value (0.0, 0e5 and 1E5 are not integer literals).
+		if strings.ContainsAny(value.Raw, ".eE") {
 			valid = false
 			return false
 		}
-		if value.Num != 0 && strings.ContainsRune(value.Raw, 'e') {
-			valid = false
-			return false
-		}
-		if value.Num == 0 && value.Raw == "-0" {
+		if value.Raw == "-0" {
 			valid = false
 			return false
 		}
